@@ -153,4 +153,11 @@ PROPS = {
         'assumptions': ['a returned slice that shares a package-level array (only when nothing was appended) is not written in place by the application'],
         'targets': ['Corr/Dispatch.vo', 'Proto/Run.vo'],
     },
+    'C08': {
+        'level_text': "Theorems on the symbolic machine (a secret is held iff its identifier occurs in the state; wipe-and-drop is the reset of the field): after any sequence of our-key rotations the private keys held are exactly the two most recently installed; End leaves nothing (no private key, AKE ephemeral, SMP state or text) in every state; completion of a key exchange clears its ephemerals; a peer's disconnect clears keys and SMP state; Send while encrypted retains only the last text. Every run: the held-secrets projection of the machine is compared, after every call of random histories (rotations, refresh/abandoned AKE, losses, SMP, End, disconnect, error messages), with a scan of the object graph reachable from the real *Conversation for every value its random source handed out, independently derived session/AKE keys and every text; oracles state the property on the scan directly, including zero-before-drop of every buffer that received a secret.",
+        'level_note': 'partial: copies made by the Go runtime (stack growth, GC), memcall page locking, big.Int internals and buffers inside crypto/dsa are outside the model and the scan; SMP exponents are big.Int copies, only the draw buffer can be followed by alias; the whole-history invariant is proved at the key-context level, the conversation-level statements are per call.',
+        'trusted': ["harness/scan.go: reflect/unsafe walk of the object graph (does not follow the harness's own handler objects, time/sync internals, func values)", 'call-site classification of random reads by runtime.Callers'],
+        'assumptions': ['identifiers of fresh exponents are distinct (random 320-bit values)'],
+        'targets': ['Corr/Dispatch.vo', 'Proto/Run.vo'],
+    },
 }
